@@ -138,7 +138,9 @@ class C17(Check):
         "every existing object (pytools' KeyBuilder leaves a non-field attribute on the "
         "instance), object state (observed, keyed). "
         "Digests (PersistentHashWalkMapper+sha256 and pytools KeyBuilder): producer vs consumer, "
-        "unpickled vs local, clone, recomputation, variants. Non-trivial = (pair, pool entry) "
+        "unpickled vs local, clone, recomputation, variants, and keyed alone vs keyed while the "
+        "==-equal typed twins (ints as floats, 0/1 as bools) are keyed and alive. "
+        "Non-trivial = (pair, pool entry) "
         "with at least one pickle consumed; distinct = distinct (pair, entry).")
     assumptions = [
         "consumer states are merged by canon(history) = (unpickled: absent/fresh/observed, local: "
